@@ -145,3 +145,11 @@ PROPS["C12"] = {
     "level_note": "unit-independence is by construction of the contract (the verdict is a function of conv(unit -> default unit)(value) only) together with C01's monotonicity lemma; floats are reals with NaN/inf flags; Array validation not yet claimed",
     "trusted": STD_TRUSTED,
 }
+
+PROPS["C19"] = {
+    "tasks": lambda tier: table_tasks("table_c19", fillers=("posc",)) + [V(AVQ + ".__init__#forms"), V(SC + ".__repr__"), V(UDB + ":UnitDatabase.GetDefaultCategory")] + VP(QM + ":ObtainQuantity", 16),
+    "level": "proof",
+    "level_text": "AbstractValueWithQuantityObject.__init__, Scalar/Array/FixedArray.__init__, CreateWithQuantity and the _InternalCreateWithQuantity methods are executed from their real AST on symbolic value, unit and category (ObtainQuantity and GetDefaultCategory by their verified contracts): for a unit whose default category is c, the forms (v,u), (v,u,c), (c,v,u), ((v,u)) (Scalar), (ObtainQuantity(u,c), v) and CreateWithQuantity are proved to build objects with equal quantity and equal value (or all to raise the same error), for Scalar, Array (values of unbounded length) and FixedArray; the object built from a category alone is proved equal to the one built from the category's default value and default unit. The precondition 'every unit's default category is registered and has the unit's quantity type' is established exhaustively for the 1548 table units by executing the real GetDefaultCategory on the table registry, together with 'no symbol or category contains a quote or backslash'; Scalar.__repr__ for a simple quantity is proved to be exactly the text of the (value, unit, category) constructor call. ObtainQuantity's exact intern-table postcondition rules out one request disturbing what a later, different request resolves to.",
+    "level_note": "FractionScalar forms not yet under contract; eval(repr(float)) == float assumed (A12); quantity equality through Quantity.__eq__ (C07)",
+    "trusted": STD_TRUSTED + ["eval(repr(x)) == x for finite floats (A12)"],
+}
